@@ -511,6 +511,26 @@ func registerEnvStubs(e *Engine) {
 		}
 		return tuple{mkTime(fr, nt), iface{}}
 	}
+	// Round / Truncate / Add on a concrete instant: the runtime's own arithmetic
+	for _, m := range []string{"Round", "Truncate", "Add"} {
+		m := m
+		in["(time.Time)."+m] = func(fr *frame, a []value) value {
+			nt, ok := nativeTime(a[0].(structure))
+			d, isConc := a[1].(int64)
+			if !ok || !isConc {
+				panic(unsupported{"time.Time." + m + " of a symbolic instant or duration"})
+			}
+			switch m {
+			case "Round":
+				nt = nt.Round(time.Duration(d))
+			case "Truncate":
+				nt = nt.Truncate(time.Duration(d))
+			default:
+				nt = nt.Add(time.Duration(d))
+			}
+			return mkTime(fr, nt)
+		}
+	}
 	in["(time.Time).UTC"] = func(fr *frame, a []value) value {
 		t := append(structure{}, a[0].(structure)...)
 		t[2] = locVal(time.UTC)
